@@ -715,20 +715,24 @@ func (cfg *Config) wordFields(wps []syntax.WordPart) ([][]fieldPart, error) {
 				})
 				s = rest
 			}
-			if strings.Contains(s, "\\") {
-				sb := cfg.strBuilder()
-				for i := 0; i < len(s); i++ {
-					b := s[i]
-					if b == '\\' {
-						if i++; i >= len(s) {
-							sb.WriteByte(b)
-							break
-						}
-						b = s[i]
-					}
-					sb.WriteByte(b)
+			// A backslash quotes the character which follows it,
+			// so each escaped character becomes a quoted part of its own;
+			// otherwise `\*` would still be seen as a glob pattern.
+			// A trailing backslash is kept as-is.
+			for {
+				i := strings.IndexByte(s, '\\')
+				if i < 0 || i+1 >= len(s) {
+					break
 				}
-				s = sb.String()
+				_, size := utf8.DecodeRuneInString(s[i+1:])
+				if i > 0 {
+					curField = append(curField, fieldPart{val: s[:i]})
+				}
+				curField = append(curField, fieldPart{
+					quote: quoteSingle,
+					val:   s[i+1 : i+1+size],
+				})
+				s = s[i+1+size:]
 			}
 			curField = append(curField, fieldPart{val: s})
 		case *syntax.SglQuoted:
